@@ -114,6 +114,7 @@ func c07Body(c *mc.Ctx) {
 	strayBlock := c.ChooseDev(2) == 1 // block 0 of the 300-row table present without its table
 	maxSize := []uint64{0, 1, 64, 4096}[c.ChooseDev(4)]
 	lastOnly := c.ChooseDev(2) == 1 // tables only for the newest sent commit (depth 1)
+	bareTable := c.ChooseDev(2) == 1 // a table object present at the destination without blocks or any index (left by an older writer)
 	c.Shard()
 
 	src := stores.NewMemStore()
@@ -152,6 +153,15 @@ func c07Body(c *mc.Ctx) {
 	if strayBlock && used[0] {
 		dst.PutRaw(pool[0].keys[3], tableCacheDB.Raw(pool[0].keys[3]))
 	}
+	if bareTable {
+		for ti, pt := range pool {
+			if used[ti] && dstTables&(1<<uint(ti)) == 0 {
+				k := "tbl/" + string(pt.st.sum)
+				dst.PutRaw(k, tableCacheDB.Raw(k))
+				break
+			}
+		}
+	}
 	var toSend []*objects.Commit
 	var expected [][]byte
 	tset := map[string]struct{}{}
@@ -175,8 +185,8 @@ func c07Body(c *mc.Ctx) {
 	for _, i := range model.Bits(commonMask) {
 		commons = append(commons, sums[i])
 	}
-	desc := fmt.Sprintf("parents=%v tables=%v destinationHasCommits=%v commonCommits=%v destinationHasTables=%v strayBlock=%v maxPackfileSize=%d tablesOnlyForNewest=%v",
-		g.Parents, tblOf, model.Bits(dstHas), model.Bits(commonMask), model.Bits(uint64(dstTables)), strayBlock, maxSize, lastOnly)
+	desc := fmt.Sprintf("parents=%v tables=%v destinationHasCommits=%v commonCommits=%v destinationHasTables=%v strayBlock=%v maxPackfileSize=%d tablesOnlyForNewest=%v bareTableObject=%v",
+		g.Parents, tblOf, model.Bits(dstHas), model.Bits(commonMask), model.Bits(uint64(dstTables)), strayBlock, maxSize, lastOnly, bareTable)
 	c.Logf("%s", desc)
 	dstBefore := map[string]bool{}
 	for _, k := range dst.Keys() {
@@ -384,7 +394,7 @@ func init() {
 		ID:    "C07",
 		Level: "exploration",
 		Rule: "every commit fragment of 1..3 commits (chain, fork, merge, several roots) x every assignment of tables from {300 rows, the same + 1 trailing row (shares a block), 2 rows; as deviations: the 300 rows under a two-column key, 3 rows under a composite key not in column order} x every ancestor-closed set of commits already at the destination x every set of tables the destination already holds x every subset of the destination's full commits named as common, completely; " +
-			"crossed with up to d deviations over: max packfile size {default,1,64,4096}, a stray block present without its table, tables requested only for the newest commit. The real ObjectSender writes packfiles, the real PackfileReader and ObjectReceiver consume them; " +
+			"crossed with up to d deviations over: max packfile size {default,1,64,4096}, a stray block present without its table, a table object present without its blocks and indices, tables requested only for the newest commit. The real ObjectSender writes packfiles, the real PackfileReader and ObjectReceiver consume them; " +
 			"source and destination stores are compared (commits, tables, blocks, block indices byte-identical; profile present; structural oracle; DiffTables(source, received) empty), and the persisted object order must put blocks before their table, the table before its commit and parents before children. " +
 			"Plus every permutation of the (up to 7) objects of a 2-commit transfer fed one by one to a fresh receiver: no commit stored without its parent, no table stored unless complete. non-trivial = at least 2 objects transferred; distinct by case description",
 		Assumptions: []string{"only commits the destination holds together with their table are named as common (the sender's precondition, which the client side of the protocol establishes; shallow destinations are exercised end-to-end in C09)", "at most 3 commits and 3 tables per transfer"},
